@@ -71,7 +71,10 @@ func TestVerifC17Matches(t *testing.T) {
 			}
 			// a text that equals a known value only AFTER normalisation (re-flowed, extra
 			// blanks): the range still refers to the normalised text
-			reflowed := "  " + strings.ReplaceAll(v, " ", []string{"  ", "\n", " \t ", "\r\n"}[r.Intn(4)]) + " \n"
+			reflowed := strings.ReplaceAll(v, " ", []string{"  ", "\n", " \t ", "\r\n"}[r.Intn(4)])
+			if r.Intn(2) == 0 {
+				reflowed = "  " + reflowed + " \n"
+			}
 			nr := c.normalize(reflowed)
 			if nm := c.NearestMatch(reflowed); nm != nil && (nm.Offset < 0 || nm.Extent < 0 || nm.Offset+nm.Extent > len(nr)) {
 				cs.violation("match-range-outside-input", "NearestMatch(%q) returned %+v; the normalised input has %d bytes", reflowed, *nm, len(nr))
